@@ -3,7 +3,7 @@
 (* Validates recorded runs of the real ComparisonReporter (env              *)
 (* VERIF_TRACES: JSON array).  One item = one pair of race results that was *)
 (* stored with FileRaceStore, read back and compared:                       *)
-(*   [id, proc, B: [E, v], C: [E, v],                                       *)
+(*   [id, proc, B: [E, v], C: [E, v], pairing,                              *)
 (*    fwd, swp: rows of _metrics_table(plain=False) for (B, C) and (C, B),  *)
 (*    plain: rows of _metrics_table(plain=True) for (B, C),                 *)
 (*    selfb, selfc: rows for (B, B) and (C, C),                             *)
@@ -31,8 +31,7 @@ Struct(x) == [E |-> ToSet(x.E), v |-> x.v]
 
 Known(rows) == {j \in 1..Len(rows) : rows[j].s # 0}
 Dom(rows) == {rows[j].s : j \in Known(rows)}
-NoDuplicates(rows) == \A j, k \in Known(rows) : rows[j].s = rows[k].s => j = k
-RowOf(rows, s) == rows[CHOOSE j \in Known(rows) : rows[j].s = s]
+NoDuplicates(rows) == Cardinality(Dom(rows)) = Cardinality(Known(rows))
 
 (* clauses about printed values are evaluated in the unit and with the number of decimals the model assumes *)
 (* for the row kind (cell field nd); another unit / precision is drift (L2), not a violation                 *)
@@ -41,31 +40,35 @@ Applies(cl, r) ==
       [] cl \in {"DiffIsContenderMinusBaseline", "ChangeIsMarked:diff"} -> r.u = SlotSeq[r.s].unit /\ r.d.nd = 5
       [] cl \in {"RelativeDifference", "ChangeIsMarked:pct"} -> r.p.nd = 2
       [] OTHER -> TRUE
-RowL1(r, X, Y) == {cl \in RowFails(Obs(r), X, Y) : Applies(cl, r)}
+(* a row for a metric that is absent on one side has no values to judge: RowPerCommonMetric reports it *)
+Both(X, Y, s) == IsDisk(s) \/ (Recorded(X, s) /\ Recorded(Y, s))
+RowL1(r, X, Y) == IF Both(X, Y, r.s) THEN {cl \in RowFails(Obs(r), X, Y) : Applies(cl, r)} ELSE {}
 
+(* all L1 results are sets of <<line, clause>> *)
 TableL1(rows, X, Y, proc, tbl) ==
-    {<<10 * rows[j].s + tbl, RowL1(rows[j], X, Y)>> : j \in {k \in Known(rows) : RowL1(rows[k], X, Y) # {}}}
-    \cup (IF RowPerCommonMetric(Dom(rows), X, Y, proc) /\ NoDuplicates(rows) THEN {} ELSE {<<tbl, {"RowPerCommonMetric"}>>})
+    UNION {{<<10 * rows[j].s + tbl, cl>> : cl \in RowL1(rows[j], X, Y)} : j \in Known(rows)}
+    \cup (IF RowPerCommonMetric(Dom(rows), X, Y, proc) /\ NoDuplicates(rows) THEN {} ELSE {<<tbl, "RowPerCommonMetric">>})
 
-SwapL1(fwd, swp, X, Y) ==
-    LET both == Dom(fwd) \cap Dom(swp)
-        fails(s) == LET o == Obs(RowOf(fwd, s))
-                        q == Obs(RowOf(swp, s))
-                    IN (IF SwapFlipsDiff(o, q) THEN {} ELSE {"SwapFlips:diff"})
-                       \cup (IF SwapFlipsPct(o, q, Val(X, s), Val(Y, s), RowOf(fwd, s).p.nd = 2 /\ RowOf(swp, s).p.nd = 2) THEN {} ELSE {"SwapFlips:pct"})
-    IN {<<10 * s + 1, fails(s)>> : s \in {x \in both : fails(x) # {}}}
-       \cup (IF Dom(fwd) = Dom(swp) THEN {} ELSE {<<1, {"SwapFlips:rows"}>>})
+(* pairing[j] = index in swp of the row for the same metric as fwd[j] (0: none); computed by the harness, checked here *)
+SwapL1(fwd, swp, pairing, X, Y) ==
+    LET ok(j) == pairing[j] \in 1..Len(swp) /\ fwd[j].s # 0 /\ swp[pairing[j]].s = fwd[j].s
+        J == {j \in 1..Len(fwd) : ok(j) /\ Both(X, Y, fwd[j].s)}
+    IN {<<10 * fwd[j].s + 1, "SwapFlips:diff">> : j \in {k \in J : ~SwapFlipsDiff(Obs(fwd[k]), Obs(swp[pairing[k]]))}}
+       \cup {<<10 * fwd[j].s + 1, "SwapFlips:pct">> :
+                j \in {k \in J : ~SwapFlipsPct(Obs(fwd[k]), Obs(swp[pairing[k]]), Val(X, fwd[k].s), Val(Y, fwd[k].s),
+                                                fwd[k].p.nd = 2 /\ swp[pairing[k]].p.nd = 2)}}
+       \cup (IF Len(pairing) = Len(fwd) /\ \A j \in 1..Len(fwd) : ok(j) \/ (fwd[j].s \notin Dom(swp)) THEN {} ELSE {<<1, "Pairing">>})
 
 SelfL1(rows, tbl) ==
-    {<<10 * rows[j].s + tbl, {"SelfCompareNoDifference"}>> : j \in {k \in Known(rows) : ~NoDifference(Obs(rows[k]))}}
+    {<<10 * rows[j].s + tbl, "SelfCompareNoDifference">> : j \in {k \in Known(rows) : ~NoDifference(Obs(rows[k]))}}
 
 PlainL1(fwd, plain) ==
     IF /\ Len(plain) = Len(fwd)
        /\ \A j \in 1..Len(fwd) : plain[j] = [fwd[j] EXCEPT !.dc = "none", !.pc = "none"]
-    THEN {} ELSE {<<5, {"PlainIsRichWithoutColour"}>>}
+    THEN {} ELSE {<<5, "PlainIsRichWithoutColour">>}
 
 FileL1(f, tbl, name) ==
-    IF f.eq /\ f.esc = 0 /\ f.frows = f.crows THEN {} ELSE {<<tbl, {"FileEqualsConsole:" \o name}>>}
+    IF f.eq /\ f.esc = 0 /\ f.frows = f.crows THEN {} ELSE {<<tbl, "FileEqualsConsole:" \o name>>}
 
 (* ---- L2: the transcription ---- *)
 CellEq(oc, ec, maxf) ==
@@ -78,10 +81,9 @@ CellEq(oc, ec, maxf) ==
 RowEq(r, o, e) == /\ r.d.nd = 5 /\ r.p.nd = 2
                /\ o.b = e.b /\ o.c = e.c /\ o.u = e.u
                /\ CellEq(o.d, e.d, 99999) /\ CellEq(o.p, e.p, 99)
-TableL2(rows, X, Y, proc) ==
-    /\ Known(rows) = 1..Len(rows) /\ NoDuplicates(rows)
-    /\ Dom(rows) = RowSlots(X, Y, proc)
-    /\ \A j \in 1..Len(rows) : RowEq(rows[j], Obs(rows[j]), CodeRow(X, Y, rows[j].s))
+TableL2(rows, X, Y, proc, tbl) ==     \* set of lines that differ from the transcription
+    (IF Known(rows) = 1..Len(rows) /\ NoDuplicates(rows) /\ Dom(rows) = RowSlots(X, Y, proc) THEN {} ELSE {tbl})
+    \cup {10 * rows[j].s + tbl : j \in {k \in Known(rows) : ~Both(X, Y, rows[k].s) \/ ~RowEq(rows[k], Obs(rows[k]), CodeRow(X, Y, rows[k].s))}}
 ReportL2(f, fwd, csv) ==
     /\ Len(f.crows) = Len(fwd) /\ Len(f.ccols) = Len(fwd)
     /\ \A j \in 1..Len(fwd) : /\ f.crows[j][1] = fwd[j].m /\ f.crows[j][2] = fwd[j].t
@@ -89,31 +91,29 @@ ReportL2(f, fwd, csv) ==
                               /\ f.ccols[j] = <<fwd[j].dc, fwd[j].pc>>
                               /\ csv => f.crows[j][5] = fwd[j].dt
 
-VARIABLES n
-TInit == /\ n = 1 /\ pair = <<0, 0>> /\ variant = 0 /\ B = 0 /\ C = 0 /\ out = NoOut /\ done = FALSE
+\* NB: the cursor must not share its name with any bound identifier of Compare.tla (TLC then stops caching SlotSeq)
+VARIABLES cur
+TInit == /\ cur = 1 /\ pair = <<0, 0>> /\ variant = 0 /\ B = 0 /\ C = 0 /\ out = NoOut /\ done = FALSE
 
 Check(it) ==
     LET X == Struct(it.B)
         Y == Struct(it.C)
         l1 == TableL1(it.fwd, X, Y, it.proc, 1) \cup TableL1(it.swp, Y, X, it.proc, 2)
-              \cup SwapL1(it.fwd, it.swp, X, Y)
+              \cup SwapL1(it.fwd, it.swp, it.pairing, X, Y)
               \cup SelfL1(it.selfb, 3) \cup SelfL1(it.selfc, 4)
               \cup PlainL1(it.fwd, it.plain)
               \cup FileL1(it.md, 6, "markdown") \cup FileL1(it.csv, 7, "csv")
-        l2 == {<<1, {}>> : x \in {1} \ {y \in {1} : TableL2(it.fwd, X, Y, it.proc)}}
-              \cup {<<2, {}>> : x \in {1} \ {y \in {1} : TableL2(it.swp, Y, X, it.proc)}}
-              \cup {<<3, {}>> : x \in {1} \ {y \in {1} : TableL2(it.selfb, X, X, it.proc)}}
-              \cup {<<4, {}>> : x \in {1} \ {y \in {1} : TableL2(it.selfc, Y, Y, it.proc)}}
-              \cup {<<6, {}>> : x \in {1} \ {y \in {1} : ReportL2(it.md, it.fwd, FALSE)}}
-              \cup {<<7, {}>> : x \in {1} \ {y \in {1} : ReportL2(it.csv, it.fwd, TRUE)}}
-    IN /\ \A x \in l1 : PrintT(<<"V", it.id, x[1], "L1", x[2]>>)
-       /\ \A x \in l2 : PrintT(<<"V", it.id, x[1], "L2", x[2]>>)
+        l2 == TableL2(it.fwd, X, Y, it.proc, 1) \cup TableL2(it.swp, Y, X, it.proc, 2)
+              \cup TableL2(it.selfb, X, X, it.proc, 3) \cup TableL2(it.selfc, Y, Y, it.proc, 4)
+              \cup (IF ReportL2(it.md, it.fwd, FALSE) THEN {} ELSE {6}) \cup (IF ReportL2(it.csv, it.fwd, TRUE) THEN {} ELSE {7})
+    IN /\ \A x \in l1 : PrintT(<<"V", it.id, x[1], "L1", {x[2]}>>)
+       /\ \A x \in l2 : PrintT(<<"V", it.id, x, "L2", {}>>)
 
-TNext == /\ n <= Len(Items)
-         /\ Check(Items[n])
-         /\ n' = n + 1
-         /\ IF n < Len(Items) THEN TRUE ELSE PrintT(<<"DONE", Len(Items), Len(Items)>>)
+TNext == /\ cur <= Len(Items)
+         /\ Check(Items[cur])
+         /\ cur' = cur + 1
+         /\ IF cur < Len(Items) THEN TRUE ELSE PrintT(<<"DONE", Len(Items), Len(Items)>>)
          /\ UNCHANGED vars
 
-TSpec == TInit /\ [][TNext]_<<vars, n>>
+TSpec == TInit /\ [][TNext]_<<vars, cur>>
 =============================================================================
